@@ -122,14 +122,15 @@ func checkC11(w *World, r *Report) {
 	g("M8-monotone", "price and amount are both not lower and at least one is higher", "a bid can be lowered (reservation stays too high or the order book shrinks) or a no-op modification is accepted", m8, "pair0", "pair1")
 
 	// ---------------------------------------------------------------- MB-FIELDS
-	for fn := range w.reachableFrom(root) {
-		fr := tm.Root(fn)
-		for _, b := range fn.Blocks {
-			for _, in := range b.Instrs {
-				e := w.EffectOf(in)
-				if e == nil || e.Kind != EffStoreWrite || e.Coll != "Bid" || e.Method != "Set" {
-					continue
-				}
+	// the Bid writes of the modification, in the calling context of the message handler (a shared setter helper is
+	// judged by what this operation hands it)
+	for _, site := range tm.sitesWhere([]*ssa.Function{root}, func(fr *Frame, in ssa.Instruction) bool {
+		e := w.EffectOf(in)
+		return e != nil && e.Kind == EffStoreWrite && e.Coll == "Bid" && e.Method == "Set"
+	}) {
+		{
+			{
+				fr, in, fn := site.Fr, site.In, site.Fr.Fn
 				args := in.(ssa.CallInstruction).Common().Args
 				key, val := tm.OperandAt(fr, in, args[2]), tm.OperandAt(fr, in, args[3])
 				construct := fnName(fn) + ":Bid.Set"
